@@ -75,7 +75,7 @@ func xerr(err error) Val {
 	return verr(err)
 }
 
-func fileVal(path string) Val {
+func c10FileVal(path string) Val {
 	b, err := os.ReadFile(path)
 	if err != nil {
 		if os.IsNotExist(err) {
@@ -272,7 +272,7 @@ func runWrapImpl(c *Ctx, o xOpts, mode uint64, x []byte, existing []byte) Val {
 			return dst.Close()
 		}()
 	}
-	return VL{xerr(err), fileVal(srcP), canonFileVal(fileVal(dstP), idxStart, c)}
+	return VL{xerr(err), c10FileVal(srcP), canonFileVal(c10FileVal(dstP), idxStart, c)}
 }
 
 // ---- xextract -----------------------------------------------------------------------------
@@ -297,7 +297,7 @@ func runExtractImpl(c *Ctx, o xOpts, a []byte, dest Val) Val {
 	mustWrite(srcP, a)
 	dstP := placeDest(d, srcP, dest)
 	err := carv2.ExtractV1File(srcP, dstP, o.v2()...)
-	return VL{xerr(err), fileVal(srcP), fileVal(dstP)}
+	return VL{xerr(err), c10FileVal(srcP), c10FileVal(dstP)}
 }
 
 // ---- xrtrip -------------------------------------------------------------------------------
@@ -329,7 +329,7 @@ func runRtripImpl(c *Ctx, o xOpts, x []byte, dest Val) Val {
 	}
 	dstP := placeDest(d, tmpP, dest)
 	err := carv2.ExtractV1File(tmpP, dstP, o.v2()...)
-	return VL{VT("nil"), xerr(err), fileVal(dstP)}
+	return VL{VT("nil"), xerr(err), c10FileVal(dstP)}
 }
 
 // ---- xreplace -----------------------------------------------------------------------------
@@ -363,7 +363,7 @@ func runReplaceImpl(c *Ctx, o xOpts, a []byte, roots []cid.Cid) Val {
 	p := filepath.Join(d, "f.car")
 	mustWrite(p, a)
 	err := carv2.ReplaceRootsInFile(p, roots, o.v2()...)
-	return VL{xerr(err), fileVal(p)}
+	return VL{xerr(err), c10FileVal(p)}
 }
 
 // header-oracle table for a file the transforms may parse: the header at the start and, for a
